@@ -31,6 +31,45 @@ def exc_class(e: BaseException) -> str:
     return n
 
 
+def never_needs(moves) -> bool:
+    """C08 (d): only element-wise mutate/filter, select/drop, rename, arrange, group_by/ungroup, at most one
+    grouped summarize, and slice_head only as the last verb."""
+    from . import findings as F
+
+    nsumm = 0
+    grouped = False
+    for idx, m in enumerate(moves):
+        v = m["v"]
+        if v in ("mutate", "filter", "arrange"):
+            tags = set()
+            for e in F.move_exprs(m):
+                tags |= F.expr_tags(e)
+            if "expr:agg" in tags or "expr:win" in tags:
+                return False
+        elif v in ("select", "drop", "rename"):
+            pass
+        elif v == "group_by":
+            grouped = True
+        elif v == "ungroup":
+            grouped = False
+        elif v == "summarize":
+            nsumm += 1
+            if nsumm > 1 or not grouped:
+                return False
+            tags = set()
+            for e in F.move_exprs(m):
+                tags |= F.expr_tags(e)
+            if "expr:win" in tags or "agg:partition_by" in tags:
+                return False
+            grouped = False
+        elif v == "slice_head":
+            if idx != len(moves) - 1:
+                return False
+        else:
+            return False
+    return True
+
+
 class Side:
     __slots__ = ("backend", "heap", "colmap", "alive", "why", "marker", "datadef", "frames", "tainted")
 
@@ -218,6 +257,9 @@ class Replayer:
                     side.alive, side.why = False, "polars-subquery"
                     return
                 subq = True
+                if never_needs([st["m"] for st in beh["steps"][: k + 1]]):
+                    self.fail(node, beh, k, bk, "never-needs",
+                              f"pipeline of the class that never needs a subquery was refused: {str(e)[-160:]}")
                 node.events.append(dict(ev="subq", backend=bk, step=k, reason=str(e).split("reason for the subquery: ")[-1].split("\n")[0]))
                 self.stats["subq"] += 1
                 res = self.retry_with_alias(node, beh, k, side, m)
